@@ -126,6 +126,11 @@ func GenGoFile(rng *rand.Rand, o SrcOpts) (src string, annotated int) {
 }
 
 func otherDecl(rng *rand.Rand, n int) string {
+	if rng.Intn(9) == 0 {
+		// a line directive (goyacc, cgo, stringer and protoc plugins emit them): it renames the positions that
+		// follow, the bytes stay where they are and belong to THIS file
+		return fmt.Sprintf([]string{"//line grammar.y:%d\n\n", "//line other_gen.go:%d\n\n", "/*line tmpl.tpl:%d:1*/\n\n", "//line :%d\n\n"}[rng.Intn(4)], 1+n*7)
+	}
 	switch rng.Intn(6) {
 	case 0:
 		return fmt.Sprintf("const c%d = \"// @tag valid:\\\"required\\\" inside a string\"\n\n", n)
